@@ -51,10 +51,12 @@ def h_infiltration(ctx, cfg):
     else:
         bunds_eff = bunds
     flux = ctx.arr("FluxOut", n, lo=0, hi=base.Ksat)
+    flux0 = list(flux)
     dp0 = ctx.real("DeepPerc0", 0, 1e4)
     ro0 = ctx.real("Runoff0", 0, 300)
     snap = prof_snapshot(prof)
     th0 = list(th)
+    m0 = ctx.mark()
     before = storage(base, th) + ss
     thn, ssn, dp, ro, infl, fl = M.infiltration(prof, ss, fca, th, infl0, irr, eff, cfg["bunds"], zb, flux, dp0, ro0, gs)
     after = storage(base, thn) + ssn
@@ -83,6 +85,12 @@ def h_infiltration(ctx, cfg):
         ctx.prove("C02,C03:no bunds => nothing stays ponded (ponded water is released once)", approx(ssn, 0, 1e-12))
     ctx.prove("C03:th<=th_s after infiltration", And(*[thn[i] <= float(base.th_s[i]) + 1e-12 for i in range(n)]))
     ctx.prove("C03:th not lowered by infiltration", And(*[thn[i] >= th0[i] - 1e-12 for i in range(n)]))
+    if not cfg["bunds"]:
+        def rerun(alt):
+            fl2 = ctx.const_arr(list(flux0))
+            r = M.infiltration(prof, ss, fca, ctx.const_arr(th0), infl0, irr, eff, False, alt["z_bund"], fl2, dp0, ro0, gs)
+            return [r[1], r[2], r[3], r[4]] + list(r[0])
+        ctx.prove_independent("C20:bund height has no effect without bunds (infiltration)", ["z_bund"], [ssn, dp, ro, infl] + list(thn), rerun, since=m0)
     ctx.prove("C12:infiltration leaves its input th untouched", And(*[a == b for a, b in zip(list(th), th0)]))
     prove_prof_unchanged(ctx, prof, snap, "C12:infiltration")
     if bunds and ctx.feasible(And(ssn >= zb, d_ro > 0)):
